@@ -4,7 +4,7 @@ import re
 
 from ..pycfg import CFG, walk_no_nested, contained, enclosing_trys
 from ..pyflow import ReachingDefs
-from ..source import AnalysisError, find_function, find_class, first_line, src, functions, qualname, enclosing_function, regex_call
+from ..source import atoms, atom_key, truth, side, AnalysisError, find_function, find_class, first_line, src, functions, qualname, enclosing_function, regex_call
 
 API = "nemoguardrails/server/api.py"
 STORE_DIR = "nemoguardrails/server/datastore"
@@ -28,7 +28,26 @@ def run(ctx):
 
 
 def _raises_valueerror(ifnode):
-    return any(isinstance(s, ast.Raise) and s.exc is not None and src(s.exc).startswith("ValueError") for s in ifnode.body)
+    return _reject_value(ifnode) is not None
+
+
+def _reject_value(ifnode):
+    """The truth value of the test for which the `if` raises ValueError at once (True: the body raises, False: the else part does); None if neither does."""
+    for v in (True, False):
+        if any(isinstance(s, ast.Raise) and s.exc is not None and src(s.exc).startswith("ValueError") for s in side(ifnode, v)):
+            return v
+    return None
+
+
+def _rejects(n, facts):
+    """Does the test node send a request with the given facts to the raising side?"""
+    rv = _reject_value(n.stmt)
+    return rv is not None and truth(n.ast, facts) is rv
+
+
+def _reject_edge(n):
+    rv = _reject_value(n.stmt)
+    return [m for m, lab in n.succ if lab is rv]
 
 
 def a_confinement(ctx, t):
@@ -89,8 +108,8 @@ def a_confinement(ctx, t):
             rejects_all = all(re.search(pat, probe) is not None for probe in ("a/b", "a\\b", "..", "../x", "x/..", "/abs", "..\\x")) if f == "re.search" else False
             accepts = all(re.search(pat, probe) is None for probe in ("abc", "abc_v2", "my-config", "a.b"))
             # the true branch of the test must not reach the sink
-            outs = {lab: m for m, lab in n.succ}
-            leaves = True in outs and sink not in cfg.reachable([outs[True]])
+            hit = [x for x in atoms(n.ast) if isinstance(x, ast.Call) and regex_call(x, t) is not None and regex_call(x, t)[1] == pat]
+            leaves = bool(hit) and _rejects(n, {(lambda e, h=hit[0]: e is h): True}) and sink not in cfg.reachable(_reject_edge(n))
             if rejects_all and accepts and leaves:
                 okr = True
                 why = "`%s(%r, %s)` rejects path separators and '..' on the raw id with ValueError before the load" % (f, pat, raw)
@@ -100,12 +119,21 @@ def a_confinement(ctx, t):
         okc = False
         whyc = "no containment test (normalised path vs root) raising ValueError dominates the load"
         for n in cont_tests:
-            s = re.sub(r"\s", "", src(n.ast))
-            outs = {lab: m for m, lab in n.succ}
-            leaves = True in outs and sink not in cfg.reachable([outs[True]])
-            shape = (s == "os.path.commonprefix([%s,%s])!=%s" % (pv, base, base)) or (s == "os.path.commonprefix([%s,%s])!=%s" % (base, pv, base)) \
-                or (s == "os.path.commonpath([%s,%s])!=%s" % (pv, base, base)) or (s == "os.path.commonpath([%s,%s])!=%s" % (base, pv, base)) \
-                or (s in ("not%s.startswith(%s)" % (pv, base), "not%s.startswith(%s+os.sep)" % (pv, base)))
+            # the atom "the normalised path lies under the root": common prefix/path of {path, root} equals the root, or path.startswith(root[+os.sep])
+            def _contained(e):
+                if isinstance(e, ast.Compare) and len(e.ops) == 1 and isinstance(e.ops[0], (ast.Eq, ast.NotEq)):
+                    sides = [re.sub(r"\s", "", src(e.left)), re.sub(r"\s", "", src(e.comparators[0]))]
+                    calls = ["os.path.commonprefix([%s,%s])" % (pv, base), "os.path.commonprefix([%s,%s])" % (base, pv),
+                             "os.path.commonpath([%s,%s])" % (pv, base), "os.path.commonpath([%s,%s])" % (base, pv)]
+                    return base in sides and any(c_ in sides for c_ in calls)
+                return re.sub(r"\s", "", src(e)) in ("%s.startswith(%s)" % (pv, base), "%s.startswith(%s+os.sep)" % (pv, base))
+            at = [x for x in atoms(n.ast) if _contained(x)]
+            shape = False
+            if at:
+                a0 = at[0]
+                holds = not (isinstance(a0, ast.Compare) and isinstance(a0.ops[0], ast.NotEq))   # value of the atom as written when the path IS contained
+                shape = _rejects(n, {(lambda e, h=a0: e is h): (not holds)})
+            leaves = sink not in cfg.reachable(_reject_edge(n))
             if shape and leaves:
                 okc = True
                 whyc = "`%s` raises ValueError unless the normalised path lies under the root" % src(n.ast)
@@ -126,7 +154,7 @@ def a_confinement(ctx, t):
             for x in ast.walk(n.ast):
                 if isinstance(x, ast.Compare) and isinstance(x.ops[0], ast.In) and isinstance(x.comparators[0], (ast.List, ast.Tuple, ast.Set)):
                     vals = {e.value for e in x.comparators[0].elts if isinstance(e, ast.Constant)}
-                    if {"", "."} <= vals:
+                    if {"", "."} <= vals and _rejects(n, {(lambda e, h=x: e is h): True}):
                         rejects_root = True
             for n2, pat, f in raw_tests:
                 if n2 is n and f == "re.search" and re.search(pat, "") is not None and re.search(pat, ".") is not None:
@@ -137,7 +165,8 @@ def a_confinement(ctx, t):
                   "the ids \"\" and \".\" (which normalise to the root) raise ValueError before the load" if rejects_root else
                   "nothing rejects the ids \"\" and \".\": they pass the separator test, normalise to the ROOT and pass the containment test (full_path == base_path), so the server loads the root itself - "
                   "every sub-folder merged into one configuration, including folders the listing hides", line=c.lineno)
-        dir_tests = [n for n in id_tests if re.search(r"not\s+os\.path\.isdir\(%s\)" % pv, src(n.ast))]
+        dir_tests = [n for n in id_tests if any(re.sub(r"\s", "", src(x)) == "os.path.isdir(%s)" % pv for x in atoms(n.ast))
+                     and _rejects(n, {"os.path.isdir(%s)" % pv: False})]
         ctx.check("C20.a.is-directory", API, unit, "the path is a directory", bool(dir_tests),
                   "a path that is not a directory raises ValueError before the load" if dir_tests else
                   "the load is not preceded by a directory test: RailsConfig.from_path opens any `*.yml`/`*.yaml` PATH as a file, so the id `x.yml` raises FileNotFoundError (HTTP 500 instead of the fixed reply) "
@@ -147,7 +176,9 @@ def a_confinement(ctx, t):
                 and len(n.ast.value.elts) == 1 and isinstance(n.ast.value.elts[0], ast.Constant)]
         for r in repl:
             tests = [n for n in cfg.nodes if n.kind == "test" and isinstance(n.stmt, ast.If) and _raises_valueerror(n.stmt) and "single_config_id" in src(n.ast)
-                     and "!=" in src(n.ast) and cfg.dominates(n, r)]
+                     and cfg.dominates(n, r) and r not in cfg.reachable(_reject_edge(n))
+                     and any(isinstance(x, ast.Compare) and len(x.ops) == 1 and isinstance(x.ops[0], (ast.Eq, ast.NotEq)) and "single_config_id" in src(x)
+                             and _rejects(n, {atom_key(x)[0]: False}) for x in atoms(n.ast))]
             ctx.check("C20.a.single-config", API, unit, first_line(r.ast), bool(tests),
                       "in single-config mode the ids are replaced by a constant only after `config_ids != [app.single_config_id]` raised ValueError", line=r.line)
         # cache: written only after a successful load
